@@ -48,7 +48,7 @@ class Event:
 
 class SubCtx(ReqCtx):
     __slots__ = ("worlds", "sub_calls", "sub_kwargs", "source", "make_source",
-                 "sub_async", "events_seen", "next_calls")
+                 "sub_async", "events_seen", "next_calls", "sub_root")
 
     def select_event(self, event):
         self.world = self.worlds[event.k]
@@ -128,6 +128,7 @@ DELAYS = (0.0, 0.0, 0.001, 0.010, 1.0, 60.0)
 def _subscription_resolver(root, ctx, info, **kwargs):
     ctx.sub_calls += 1
     ctx.sub_kwargs = kwargs
+    ctx.sub_root = root
     ctx.log("sub_resolver", tuple(info.path), ctx.req_id)
     if ctx.sub_async is None:
         return ctx.make_source()
@@ -141,7 +142,8 @@ def _subscription_resolver(root, ctx, info, **kwargs):
 
 class SubPlan:
     __slots__ = ("idx", "op", "text", "n", "delays", "pauses", "source_kind",
-                 "sub_async", "faults", "wseeds", "exps", "scenario")
+                 "sub_async", "faults", "wseeds", "exps", "scenario",
+                 "initial_value", "async_for")
 
 
 REFUSALS = ("two-fields", "two-aliases", "two-via-fragment",
@@ -239,6 +241,8 @@ def _plan(draws, spec, idx, scenario):
     plan.pauses = [DELAYS[rs.below(len(DELAYS), "pause")]
                    for _ in range(plan.n + 1)]
     plan.source_kind = SOURCES[rs.below(len(SOURCES), "source")]
+    plan.initial_value = ("IV%d" % idx) if rs.below(2, "initial") else None
+    plan.async_for = bool(rs.below(2, "async_for"))
     plan.sub_async = None
     if rs.chance(1, 2, "sub_async"):
         plan.sub_async = DELAYS[rs.below(len(DELAYS), "sub_lat")]
@@ -339,6 +343,7 @@ def run_case(draws, prop, tier="quick"):
         ]
         ctx.sub_calls = 0
         ctx.sub_kwargs = None
+        ctx.sub_root = "unset"
         ctx.sub_async = plan.sub_async
         ctx.events_seen = []
         ctx.next_calls = 0
@@ -360,6 +365,7 @@ def run_case(draws, prop, tier="quick"):
             stream = subscribe(
                 bundle.schema, doc, variables=plan.op.variables,
                 operation_name=plan.op.operation_name,
+                initial_value=plan.initial_value,
                 context_value=ctx, runtime=runtime,
                 instrumentation=Recorder(lambda: kernel, "R0", plan.idx),
             )
@@ -370,6 +376,23 @@ def run_case(draws, prop, tier="quick"):
         finally:
             if plan.scenario == "pool-runtime":
                 runtime._inner.shutdown(wait=False)
+        if plan.async_for:
+            # the consumer most code is written as
+            k = 0
+            try:
+                await loop.sleep(plan.pauses[0])
+                async for r in stream:
+                    kernel.log.add("delivered", None, (plan.idx, k))
+                    got.append(("result", r))
+                    k += 1
+                    if k > plan.n + 3:
+                        got.append(("overrun", None))
+                        return
+                    await loop.sleep(plan.pauses[min(k, plan.n)])
+                got.append(("end", None))
+            except Exception as err:  # noqa: B902
+                got.append(("raised", err))
+            return
         it = stream.__aiter__()
         k = 0
         while True:
@@ -484,6 +507,11 @@ def run_case(draws, prop, tier="quick"):
             V.append(Violation(P, "event_result", ("sub-args",),
                                "%r != %r" % (ctx.sub_kwargs,
                                              _sub_kwargs(spec, plan.op))))
+        if ctx.sub_calls == 1 and ctx.sub_root != plan.initial_value:
+            V.append(Violation(P, "event_result", ("sub-root",),
+                               "subscription resolver got root %r, "
+                               "initial_value was %r" % (ctx.sub_root,
+                                                         plan.initial_value)))
         if ctx.events_seen != list(range(plan.n)):
             V.append(Violation(P, "event_order", ("processing-order",),
                                "events processed %r" % (ctx.events_seen,)))
